@@ -27,7 +27,8 @@ Definition closed (m : model) : bool :=
   forallb (fun w => forallb (fun v => mem (fst v) ds) (sc_values w)) (sch_week s) &&
   nodupb (map s_id (m_spaces m)) && nodupb (map w_id (m_walls m)) && nodupb (map win_id (m_windows m)) &&
   nodupb (map wc_id (c_wallcons c)) && nodupb (map wnc_id (c_wincons c)) && nodupb mats && nodupb gls && nodupb frs &&
-  nodupb lds && nodupb ths && nodupb ys && nodupb ws && nodupb ds.
+  nodupb lds && nodupb ths && nodupb ys && nodupb ws && nodupb ds &&
+  nodupb (map sh_id (m_shades m)) && nodupb (map tb_id (m_tbs m)).
 
 Definition counts_total (v : list (uuid * N)) : N := fold_right N.add 0%N (map snd v).
 
